@@ -283,6 +283,7 @@ PROPS = {
         "kind": "c13",
         "module": "Props.C13",
         "namespace": "Jl.C13",
+        "extra_theorem_files": [("Proofs.Pairings", "Jl.Pairings")],
         "rule": ("every pairing of 8 formats x (18 raw types + none) — the ~95 of the lossless table AND the pairings outside it (to confirm the "
                  "table is tight) — x boundary and random values of the raw type (integers: bounds, +-1, powers of two; floats: +-0, "
                  "subnormals, extremes, 2^53+1, NaN/Inf; strings: valid UTF-8 incl. escapes-needing characters, look-alikes, and ill-formed "
@@ -298,6 +299,7 @@ PROPS = {
         "kind": "c05",
         "module": "Props.C05",
         "namespace": "Jl.C05",
+        "extra_theorem_files": [("Proofs.Pairings", "Jl.Pairings")],
         "rule": ("under process zones UTC, +05:30, -03:00, Europe/Paris, America/New_York: output templates of 1-5 columns whose descriptors are "
                  "drawn from the self-readable table (all 9 formats, raw types incl. none; hidden included), input templates equal to the "
                  "output template or with independent formats / raw types / auto, input lines with values chosen to be mostly accepted "
